@@ -195,6 +195,25 @@ void hot_containers(quill::LoggerImpl<FO>* l, std::vector<int> const& vi, std::v
   LOG_INFO(l, "{} {} {} {} {} {}", fl, ss, us, vvs, vcs, vsv);
 }
 
+// the other arm of every container codec (arithmetic elements are summed / copied in one piece, class-type elements one by one):
+// hot_containers has one element kind per container, this root has the other
+template <typename FO>
+void hot_containers2(quill::LoggerImpl<FO>* l, std::deque<std::string> const& ds, std::list<int> const& li, std::forward_list<std::string> const& fs,
+                     std::set<int> const& si, std::unordered_set<std::string> const& uss, std::map<int, int> const& mii,
+                     std::unordered_map<int, int> const& umii, std::multimap<int, int> const& mmii, std::pair<int, double> const& pid,
+                     std::optional<double> const& od, std::vector<double> const& vd, std::vector<Colour> const& vc)
+{
+  LOG_INFO(l, "{} {} {} {} {} {}", ds, li, fs, si, uss, mii);
+  LOG_INFO(l, "{} {} {} {} {} {}", umii, mmii, pid, od, vd, vc);
+}
+
+// built-in arrays (Codec<T[N]>, T != char): arithmetic, enum and class-type elements
+template <typename FO>
+void hot_carrays(quill::LoggerImpl<FO>* l, int const (&ia)[3], Colour const (&ea)[2], std::string const (&sa)[2])
+{
+  LOG_INFO(l, "{} {} {}", ia, ea, sa);
+}
+
 template <typename FO>
 void hot_maps(quill::LoggerImpl<FO>* l, std::map<std::string, int> const& msi, std::unordered_map<std::string, std::string> const& umss,
               std::map<int, std::vector<std::string>> const& miv, std::multimap<std::string, int> const& mm,
@@ -275,6 +294,12 @@ void cold_preallocate()
                                  std::chrono::system_clock::time_point);                                                                      \
   template void hot_deferred<FO>(quill::LoggerImpl<FO>*, Deferred const&, DeferredPlaced const&, std::vector<Deferred> const&);               \
   template void hot_memberwise<FO>(quill::LoggerImpl<FO>*, Memberwise const&, std::string const&, std::vector<Memberwise> const&);            \
+  template void hot_carrays<FO>(quill::LoggerImpl<FO>*, int const (&)[3], Colour const (&)[2], std::string const (&)[2]);                     \
+  template void hot_containers2<FO>(quill::LoggerImpl<FO>*, std::deque<std::string> const&, std::list<int> const&,                            \
+                                    std::forward_list<std::string> const&, std::set<int> const&, std::unordered_set<std::string> const&,      \
+                                    std::map<int, int> const&, std::unordered_map<int, int> const&, std::multimap<int, int> const&,           \
+                                    std::pair<int, double> const&, std::optional<double> const&, std::vector<double> const&,                  \
+                                    std::vector<Colour> const&);                                                                             \
   template void control_direct<FO>(quill::LoggerImpl<FO>*, Direct const&);                                                                    \
   template void control_path<FO>(quill::LoggerImpl<FO>*, std::filesystem::path const&);                                                       \
   template void cold_preallocate<FO>();
